@@ -39,7 +39,8 @@ class SulModel:
 
 
 class SegmentModel:
-    __slots__ = ('position', 'length', 'vr_position', 'vr_length', 'data_offset', 'data_length', 'pad', 'checksum', 'trailing', 'first', 'last')
+    __slots__ = ('position', 'length', 'vr_position', 'vr_length', 'data_offset', 'data_length', 'pad', 'checksum', 'trailing', 'first', 'last',
+                 'enc_pad_bit')
 
     def as_dict(self):
         return {k: getattr(self, k) for k in self.__slots__}
@@ -107,6 +108,8 @@ class FileModel:
                 c.add('empty-payload')
             if any(s.data_length == 0 and not (s.first and s.last) for s in r.segments):
                 c.add('zero-payload-segment')
+            if any(getattr(s, 'enc_pad_bit', False) for s in r.segments):
+                c.add('encrypted-with-pad-bit')
         return sorted(c)
 
 
@@ -148,9 +151,14 @@ def random_layout(rng):
     }
 
 
-def _segment(rng, lr, chunk, first, last, chk, trail, want_pad):
-    """Build one segment.  Returns (bytes, pad_count)."""
+def _segment(rng, lr, chunk, first, last, chk, trail, want_pad, enc_pad_bit=False):
+    """Build one segment.  Returns (bytes, pad_count).
+
+    enc_pad_bit: for an encrypted record set the padding attribute bit without touching the body: the pad bytes of
+    an encrypted segment are part of the encrypted (opaque) body, so a reader that cannot decrypt returns them verbatim."""
     attr = (0x80 if lr.eflr else 0) | (0 if first else 0x40) | (0 if last else 0x20) | (0x10 if lr.encrypted else 0)
+    if lr.encrypted and enc_pad_bit:
+        attr |= 0x01
     tail_len = (2 if chk else 0) + (2 if trail else 0)
     n = 4 + len(chunk) + tail_len
     padn = 0
@@ -195,11 +203,15 @@ def min_seg_len(nbytes, chk, trail):
     return n
 
 
-def write_file(rng, lrs, layout=None, sul=None, cuts=None):
+def write_file(rng, lrs, layout=None, sul=None, cuts=None, opts=None):
     """Write the logical records into a conformant RP66V1 byte string with a random physical layout.
 
     cuts: optional explicit plan {record index: [chunk lengths]} (used by the exhaustive small-scope enumeration);
-          each chunk becomes one segment.
+          each chunk becomes one segment (also honoured for encrypted records: the caller supplies conformant chunks).
+    opts: optional {record index: {'chk': bool, 'trail': bool, 'pad': bool}} overriding the random trailer choices of
+          that record ('pad' = extra padding beyond what conformance forces, on every segment of the record).
+    layout key 'p_enc_padbit' (optional, default 0): probability that a segment of an encrypted record carries the
+          padding attribute bit (body unchanged, expected verbatim).
     """
     lay = dict(random_layout(rng) if layout is None else layout)
     vr_cap = lay['vr_cap']
@@ -231,6 +243,11 @@ def write_file(rng, lrs, layout=None, sul=None, cuts=None):
         model.records.append(rm)
         chk = rng.random() < lay['p_chk']
         trail = rng.random() < lay['p_trail']
+        ropt = (opts or {}).get(ri) or {}
+        if 'chk' in ropt:
+            chk = bool(ropt['chk'])
+        if 'trail' in ropt:
+            trail = bool(ropt['trail'])
         payload = lr.payload
         ofs = 0
         first = True
@@ -242,7 +259,7 @@ def write_file(rng, lrs, layout=None, sul=None, cuts=None):
             if room < SEG_MIN:
                 flush()
                 continue
-            if lr.encrypted:
+            if lr.encrypted and plan is None:
                 # even chunks >= 12 - tail, no padding; remaining is even and >= that by construction
                 lo = max(SEG_MIN - over, 2)
                 lo += lo % 2
@@ -293,9 +310,12 @@ def write_file(rng, lrs, layout=None, sul=None, cuts=None):
                 chunk = payload[ofs:ofs + take]
                 last = ofs + take >= len(payload)
             want_pad = (not lr.encrypted) and rng.random() < lay['p_pad']
-            seg, padn = _segment(rng, lr, chunk, first, last, chk, trail, want_pad)
+            if 'pad' in ropt:
+                want_pad = (not lr.encrypted) and bool(ropt['pad'])
+            epb = bool(lr.encrypted and lay.get('p_enc_padbit') and rng.random() < lay['p_enc_padbit'])
+            seg, padn = _segment(rng, lr, chunk, first, last, chk, trail, want_pad, epb)
             if len(seg) > room:
-                seg, padn = _segment(rng, lr, chunk, first, last, chk, trail, False)
+                seg, padn = _segment(rng, lr, chunk, first, last, chk, trail, False, epb)
             if len(seg) > room:
                 if len(vr) == 0:
                     raise ValueError('segment cannot fit an empty visible record')
@@ -307,6 +327,7 @@ def write_file(rng, lrs, layout=None, sul=None, cuts=None):
             sm.length = len(seg)
             sm.data_offset, sm.data_length = ofs, take
             sm.pad, sm.checksum, sm.trailing, sm.first, sm.last = padn, chk, trail, first, last
+            sm.enc_pad_bit = epb
             sm.position = sm.vr_position = sm.vr_length = None
             vr_segs.append((sm, len(vr)))
             vr += seg
